@@ -119,6 +119,12 @@ func (obj *CategoricalEstimator) updateEstimate() error {
   for j := 0; j < len(sum_t); j++ {
     sum = LogAdd(sum, sum_t[j])
   }
+  if math.IsInf(sum, -1) {
+    // no observation has positive weight, keep the current estimate
+    obj.sum_t = nil
+    obj.sum_c = nil
+    return nil
+  }
   for j := 0; j < len(sum_t); j++ {
     sum_t[j] = math.Exp(sum_t[j] - sum)
   }
